@@ -184,9 +184,11 @@ fn flip(path: &Path, offset: u64, mask: u8) -> std::io::Result<()> {
 }
 
 pub async fn run(args: &Args, rep: &mut Reporter) {
-    let histories = args.by_tier(1usize, 2usize);
+    let histories = args.by_tier(1usize, 4usize);
     let steps = args.by_tier(28usize, 60usize);
-    let dense = args.thorough();
+    // exhaustive byte enumeration with one full report per mutated byte does not fit a time box on
+    // folders of 40+ rows: the thorough tier runs more and longer histories with the same sampling
+    let dense = false;
     let mut rng = Rng::new(args.shard_seed() ^ 0xC16);
     for (ci, config) in Config::matrix().iter().enumerate().filter(|(i, _)| i % 2 == 0) {
         let pdir = args.dir.join(format!("pristine{ci}"));
